@@ -241,8 +241,21 @@ Tick(d) ==
     /\ out' = [NoOut EXCEPT !.tx = {[id |-> e.id, rel |-> TRUE, resent |-> TRUE] : e \in again},
                             !.failed = {e.id : e \in dead}]
 
+(* The clock advances by d and nothing looks at the pending sends (they only grow older).     *)
+Age(d) == /\ alive # "dead"
+          /\ pend' = {[e EXCEPT !.age = e.age + d] : e \in pend}
+          /\ UNCHANGED <<seen, evN, rR, aR, dR, rU, dU, done, failed, relIssued, ackedSince, xmits, ids, lastId, subs, life, aux>>
+          /\ out' = NoOut
+(* One iteration of the CLIENT's resend loop (HippoClient._attempt_resends) after the clock    *)
+(* advanced by d: it runs the resend pass on every circuit that is alive.  On an alive         *)
+(* circuit the pass therefore runs at EVERY iteration, whatever happened to other sends        *)
+(* before: each reliable send keeps being retransmitted until it is acknowledged or ITS        *)
+(* budget is spent.  (A circuit whose handshake is not through is skipped by that loop: the    *)
+(* sends on it just grow older -- the unchanged code, taken as an assumption.)                 *)
+LoopTick(d) == IF alive = "alive" THEN Tick(d) ELSE Age(d)
+
 (*************************** Properties ************************************)
-TypeOK == /\ \A e \in pend : e.tries \in 1..Budget /\ e.age \in 0..(Every - 1)
+TypeOK == /\ \A e \in pend : e.tries \in 1..Budget /\ e.age >= 0
           /\ lastId >= -1
 
 \* every reliable packet is acknowledged every time it is received
